@@ -277,6 +277,12 @@ func (a *AnySchema) checkAndConvert(data any) (any, error) {
 			if err != nil {
 				return nil, ConstraintErrorAddPathSegment(err, fmt.Sprintf("[%v]", key))
 			}
+			if _, exists := result[key]; exists {
+				return nil, &ConstraintError{
+					Message: fmt.Sprintf("Duplicate key %v after conversion", key),
+					Path:    []string{fmt.Sprintf("{%v}", k)},
+				}
+			}
 			result[key] = value
 		}
 		return result, nil
